@@ -196,7 +196,15 @@ func (multi *MultiEpoch) handleGetSignaturesForAddress(ctx context.Context, conn
 	// The response is an array of objects: [{signature: string}]
 	response := make([]map[string]any, countTransactions(foundTransactions))
 	numBefore := 0
+	// newest epoch first (ranging over the map itself would visit the epochs in an arbitrary order)
+	foundEpochs := make([]uint64, 0, len(foundTransactions))
 	for ei := range foundTransactions {
+		foundEpochs = append(foundEpochs, ei)
+	}
+	sort.Slice(foundEpochs, func(i, j int) bool {
+		return foundEpochs[i] > foundEpochs[j]
+	})
+	for _, ei := range foundEpochs {
 		epoch := ei
 		ser, err := multi.GetEpoch(epoch)
 		if err != nil {
